@@ -7,6 +7,11 @@ ALL = ["C%02d" % i for i in range(1, 21)]
 
 # id -> (level, technique, level text, level note, design ref)
 CLAIMS = {
+ "C01": ("exploration",
+         "rapid histories of successive messages (packet size, header type, package mix sized to k*(packetSize-8)+d, call split) on a Conn over a capturing transport + exhaustive boundary core; oracle = independent packet parser over the captured bytes vs. expected encodings from an own flat BytesChannel",
+         "Histories of 1..4 messages are sent through QueuePackage/SendRemainingPackets/SendPackage on a real Channel whose transport records every Write; the captured bytes must parse as packets with exact header lengths, full inner packets, right type/channel, EOM on exactly the last packet of each message and bodies concatenating to the packages' encodings, with nothing carried into the next message; all combinations of 6 packet sizes x k 1..3 x d -1..1 x layouts x flush styles are enumerated.",
+         "Channel 0, single goroutine; expected encodings come from the packages' own WriteTo on an independent flat channel (package layouts themselves are C06's subject); packet sizes 256..65535.",
+         "DESIGN.md section 3, C01"),
  "C04": ("exploration",
          "rapid value generators per data type (boundary-biased) + exhaustive small domains / every day / every tick; oracle = round trip (Bytes -> GoValue -> Bytes) compared through an independent value description",
          "Every data type with a Go mapping (each legal width of the nullable families) is round-tripped for generated values over the whole Go domain; 8- and 16-bit domains, NULLs, every day of years 1..9999 and every 1/300 s tick are enumerated completely in the thorough tier (stride-sampled in quick).",
